@@ -157,6 +157,7 @@ type c08Node struct {
 }
 
 type c08World struct {
+	bad    map[int]bool // block ids whose execution fails (bad state root)
 	keys   []crypto.PrivKey
 	bpids  []string
 	bpIdx  map[string]int
@@ -284,6 +285,13 @@ func (w *c08World) deliver(nd *c08Node, blk *types.Block, o *c08Obs) {
 	nd.cdb.byHash[string(blk.BlockHash())] = blk
 	best := nd.cdb.best
 	if string(blk.GetHeader().GetPrevBlockHash()) == string(best.BlockHash()) {
+		if w.bad[w.id(blk.ID())] {
+			// executeBlock: ex.execute() fails -> cs.Update(bestBlock); the block is cached as errored
+			nd.st.Update(best)
+			delete(nd.cdb.byHash, string(blk.BlockHash()))
+			o.Res = "exec_failed"
+			return
+		}
 		nd.st.Update(blk)
 		nd.cdb.byNo[blk.BlockNo()] = blk
 		nd.cdb.best = blk
@@ -319,6 +327,13 @@ func (w *c08World) deliver(nd *c08Node, blk *types.Block, o *c08Obs) {
 	o.NeedReorg = 1
 	nd.st.Update(root) // rollback
 	for i := len(newBlocks) - 1; i >= 0; i-- {
+		if w.bad[w.id(newBlocks[i].ID())] {
+			// rollforward: executeBlock fails -> cs.Update(old best block); reorg returns the error,
+			// the chain DB is untouched, nothing is saved
+			nd.st.Update(best)
+			o.Res = "reorg_failed"
+			return
+		}
 		nd.st.Update(newBlocks[i]) // rollforward
 	}
 	// swapChainMapping
@@ -370,6 +385,7 @@ func TestVerifC08Engine(t *testing.T) {
 		}
 		w.blocks = map[int]*types.Block{0: genesis}
 		w.idOf = map[string]int{genesis.ID(): 0}
+		w.bad = map[int]bool{}
 		if len(w.bpids) == 0 {
 			// bp ids as the code derives them from a signed block
 			for i, k := range w.keys {
@@ -431,6 +447,8 @@ func TestVerifC08Engine(t *testing.T) {
 				b.BlockHash()
 				w.blocks[id] = b
 				w.idOf[b.ID()] = id
+			case "BAD":
+				w.bad[geti(1)] = true
 			case "D":
 				nd := nodes[geti(1)]
 				o := c08Obs{Op: "D", Node: geti(1)}
